@@ -103,6 +103,9 @@ def run(ctx):
                            simulate=None if thorough else "num=3000"))
     ajobs.append(lambda: A(ctx, "ConcGen_snap_unlocked_val.cfg", "val", "converged", 800 if thorough else 15,
                            simulate=None if thorough else "num=3000"))
+    # (an include-filtered subscription may take its snapshot on a path of its own)
+    ajobs.append(lambda: A(ctx, "ConcGen_snap_unlocked_inc.cfg", "coll", "converged", 800 if thorough else 15,
+                           simulate=None if thorough else "num=3000"))
     if thorough:
         ajobs.append(lambda: A(ctx, "ConcGen_lossy_coll_pinned.cfg", "coll", "converged", 800))
     att = [c for r in conc_common.par(ajobs, width=3 if thorough else 6) for c in r]
